@@ -88,6 +88,11 @@ CHECKS = {
          "1,900+ predicate trees (Rep with 1-2 terms, And of up to 2, Or of up to 3 branches of Rep/And; every sharing pattern of 3 scalar names and of 3 base points up to renaming) on Ed25519 (all), P-256 and bn256.G1 (subsets): every Or-branch proven with the others true/false/alternating: HashProve+HashVerify accept, also for a re-run Prover value; each secret of the proven branch falsified -> no accepted proof; truncation around every element boundary, bit flips across the transcript, another protocol name, each public point replaced, other sharing patterns whose proven branch is not satisfiable by the honest values -> rejected. Deniable prover on cliques of 1-3 participants (everybody verifies everybody, also itself) in lock step: all honest proofs accepted everywhere; a participant with a falsified secret is reported by every verifier.",
          "Trusted: seeded secrets/bases; soundness only against the enumerated alterations, not against all prover strategies.",
          "DESIGN.md §4 C14"),
+ "C15": ("model_checking",
+         "exhaustive enumeration of permutations x input variants x output/proof/parameter alterations on the real shuffle provers and verifiers, exact permutation-of-re-encryptions oracle from known discrete logs, plus a forging prover strategy",
+         "Pair shuffle on Ed25519 and P-256: every permutation for k=2..4 (thorough 5; 8 and 12 with fixed permutations) x 3 input variants (random, small, duplicate ciphertexts): honest proof verifies; per slot: X/Y replaced, duplicated, scaled, summed with its neighbour, swapped, input replaced; output extended/shortened; G/H replaced; proof of another instance; proof bytes flipped / truncated: accepted only if the model says the output is a re-encryption permutation and nothing else changed. Forging strategy F1 builds a fresh transcript for M in {I+E01, I+E10, diag(2,1..)}: must be rejected. Simple shuffle: every permutation, y entries replaced/duplicated/unscaled. Biffle: 8 streams (both bits), slot replacement/duplication, proof alterations. Sequence shuffle NQ=1..3: all permutations reachable through seeded streams (k<=3), slot replacement/duplication per sequence.",
+         "Trusted: soundness only against the enumerated alterations and the F1 strategy; the forger mirrors the package's transcript layout.",
+         "DESIGN.md §4 C15"),
 }
 
 NOT_YET = "check not built yet in this round (planned: see DESIGN.md §4)"
